@@ -57,20 +57,35 @@ def exec_call(call, limit):
     """one interface call -> record {"status", "val" | "msg", "warn", "s"}"""
     import cotengra as ctg
     from . import c05 as base
-    net = gen.Net.from_json(call["net"])
-    inputs, output, sd = net.sym_inputs(), net.sym_output(), net.sym_sizes()
-    n = len(net.inputs)
-    opt = build_optimize(call["opt"])
+    extra = {}
+    if "raw" in call:
+        raw = call["raw"]
+        inputs = [tuple(t) for t in raw["inputs"]]
+        output = tuple(raw["output"])
+        sd = raw["size_dict"]
+        n = len(inputs)
+        o = raw["optimize"]
+        if "preset" in o:
+            opt = o["preset"]
+        else:
+            seq = [tuple(x) if isinstance(x, list) else x for x in o["seq"]]
+            opt = tuple(seq) if o["container"] == "tuple" else list(seq)
+        extra = {k: ([tuple(x) for x in v] if k == "shapes" else v) for k, v in raw.get("kw", {}).items()}
+    else:
+        net = gen.Net.from_json(call["net"])
+        inputs, output, sd = net.sym_inputs(), net.sym_output(), net.sym_sizes()
+        n = len(net.inputs)
+        opt = build_optimize(call["opt"])
 
     def produce():
         if call["entry"] == "path":
-            kw = {} if call.get("cache") else {"cache": False}
+            kw = dict(extra) if "raw" in call else ({} if call.get("cache") else {"cache": False})
             val = ctg.array_contract_path(inputs, output, sd, optimize=opt, **kw)
             try:
                 return {"path": [_jsonable_step(s_) for s_ in val]}
             except TypeError:
                 return {"path": [[repr(val)[:80]]]}
-        tree = ctg.array_contract_tree(inputs, output, sd, optimize=opt)
+        tree = ctg.array_contract_tree(inputs, output, sd, optimize=opt, **extra)
         out = {"children": base.dump_children(tree), "N": int(getattr(tree, "N", -1)), "nested": None,
                "cls": type(tree).__name__}
         if base.tree_ok(n, out["children"]):
